@@ -138,16 +138,20 @@ SAFE_BUILTINS = {
     "min": min,
     "max": max,
     "sorted": sorted,
+    "type": type,
+    "abs": abs,
+    "hash": hash,
 }
 
 
 def _host_modules():
     import functools
     import itertools
+    import math
     import re
     import textwrap
 
-    return (re, textwrap, itertools, functools)
+    return (re, textwrap, itertools, functools, math)
 
 
 HOST_MODULES = _host_modules()
@@ -361,7 +365,7 @@ class HostInterp:
                 return self.globals_env[e.id]
             if e.id == "ast":
                 return ast
-            if e.id in ("re", "textwrap"):
+            if e.id in ("re", "textwrap", "math", "itertools", "functools"):
                 return __import__(e.id)
             if e.id in self.classes:
                 return ("class", e.id)
@@ -630,7 +634,7 @@ class HostInterp:
                 return fn(*args, **kwargs)
             except (TypeError, ValueError, KeyError, IndexError) as ex:
                 raise AnalysisError(f"interpretation: {d or fn} failed on abstract values: {type(ex).__name__}: {ex}")
-        if fn in SAFE_BUILTINS.values() or (callable(fn) and getattr(fn, "__self__", None) is not None and isinstance(fn.__self__, self.host_types + (_re.Match,))) or getattr(fn, "__module__", None) in ("re", "textwrap", "itertools", "functools"):
+        if fn in SAFE_BUILTINS.values() or (callable(fn) and getattr(fn, "__self__", None) is not None and isinstance(fn.__self__, self.host_types + (_re.Match,))) or getattr(fn, "__module__", None) in ("re", "textwrap", "itertools", "functools", "math"):
             try:
                 return fn(*args, **kwargs)
             except (TypeError, ValueError, KeyError, IndexError) as ex:
